@@ -23,6 +23,9 @@ DIRS = [(10., 20.), (35., 80.), (60., 140.), (85., 200.), (110., 260.), (135., 3
         (25., 300.), (50., 10.), (75., 170.), (100., 95.), (125., 230.), (150., 350.), (90., 0.)]
 
 
+RULE = RULE + ' Thick tapered dipoles (taper types 1-3, both listings, minimum of 2.5 radii binding) are moved through the same motion menu.'
+
+
 def bounds(tier, seed):
     return dict(max_wires=2 if tier == 'quick' else 3, variant=geom.variant(seed), motions='full menu per structure')
 
